@@ -174,7 +174,7 @@ impl<'a, T> ChordsV2<'a, T> {
     }
 
     pub fn is_idle_chv2(&self) -> bool {
-        self.queue.is_empty() && self.active_chords.is_empty()
+        self.queue.is_empty() && self.active_chords.is_empty() && self.ticks_until_next_state_change == 0
     }
 
     pub fn accepts_chords_chv2(&self) -> bool {
